@@ -291,10 +291,11 @@ Theorem critical_section_protocol_safe : forall found h,
 Proof. exact protocol_safe. Qed.
 
 (* the critical section of the transition system — what the replay performs for every observed
-   section — is the script of the trace of the wrapper's code *)
+   section — is the script of the trace of the wrapper's code, whatever the user function does
+   (returns, returns an error, panics: in all three cases its update is made and the lock released) *)
 Theorem critical_section_is_code_script :
   forall (S X : Type) (gen : nat -> S) (hfun : kind -> N -> X -> S -> X * S) (lout : N -> X -> X)
-         (mrg : list X -> X) (f : forest) (x0 : X) w h (c : config S X) i n, h <> HPanic ->
+         (mrg : list X -> X) (f : forest) (x0 : X) w h (c : config S X) i n,
     do_cs S X gen hfun lout mrg f x0 c i n =
     run_steps S X (pstep S X gen hfun lout mrg f x0) c (script (o_trace (run_prog true h (cs_prog w))) i n).
 Proof. exact do_cs_is_wrapper_script. Qed.
